@@ -81,13 +81,18 @@ def check_layout(lay, variation, param, isar=False):
             inc = []
             for d in lay.include_dirs(root):
                 inc += ['-I', d]
+            if getattr(lay, 'patch_text', None):
+                # the same patch file in both runs of the pair (its rules may name definitions of included files)
+                with open(os.path.join(root, 'patch.txt'), 'w') as f:
+                    f.write(lay.patch_text)
+                pre = ['--patch', os.path.join(root, 'patch.txt')]
         base_out = os.path.join(root, 'out_base')
         os.makedirs(base_out)
         rc, err = run_sub(pre + inc + out_args(base_out) + paths, root, 0)
         if rc != 0:
             return 'skip'
         base = snapshot_dir(base_out)
-        det = dict(lay.describe(), variation=variation, param=param, isar=isar)
+        det = dict(lay.describe(), variation=variation, param=param, isar=isar, patch=getattr(lay, 'patch_text', None))
         var_out = os.path.join(root, 'out_var')
         os.makedirs(var_out)
         only = None
@@ -258,6 +263,21 @@ def cases(draw, opts):
                                           'after_other']))
         if lay.nfiles >= 4 and draw(st.booleans()):
             variation = 'hashseed'      # include graphs with diamonds: symbol sets are where hash order could leak
+        if draw(st.integers(0, 3)) == 0:
+            # a patch file (-p) with rules that are not idempotent, naming structs of any of the files
+            from vlib.ir import Struct as _S, PLAIN as _P
+            rules = []
+            for d in draw(st.lists(st.sampled_from(lay.schema.structs()), min_size=1, max_size=2, unique_by=lambda x: x.name)) \
+                    if lay.schema.structs() else []:
+                plain = [m for m in d.members if m.kind == _P and m.name not in d.sizers()]
+                if plain and draw(st.booleans()):
+                    rules.append('%s rename %s %s_pq' % (d.name, plain[0].name, plain[0].name))
+                else:
+                    rules.append('%s insert 0 zq_%s u%d' % (d.name, d.name.lower(), draw(st.sampled_from([8, 16, 32, 64]))))
+            if rules:
+                lay.patch_text = '\n'.join(rules) + '\n'
+                if variation in ('order', 'hashseed') and draw(st.booleans()):
+                    variation = 'alone'
     if variation == 'hashseed':
         param = draw(st.one_of(st.just(1), st.integers(2, 2 ** 32 - 1)))
     elif variation == 'order':
@@ -277,8 +297,8 @@ def body(case, stats):
         return
     texts = tuple(lay.text(i) for i in range(lay.nfiles))
     nontrivial = (sum(len(x) for x in lay.includes) >= 2 or lay.nfiles >= 3 or len(lay.schema.decls) >= 6)
-    stats.case((texts, variation, repr(param), isar), nontrivial,
-               (variation, 'isar' if isar else 'prophy', 'files=%d' % lay.nfiles),
+    stats.case((texts, variation, repr(param), isar, getattr(lay, 'patch_text', None)), nontrivial,
+               (variation, 'isar' if isar else 'prophy', 'files=%d' % lay.nfiles) + (('patch',) if getattr(lay, 'patch_text', None) else ()),
                sample=lambda: {'variation': variation, 'param': param, 'isar': isar, 'layout': lay.describe()})
     if res:
         raise Violation(res[0], {'details': res[1]})
